@@ -66,6 +66,11 @@ func Run(sc *Script) []trace.Event {
 	defer func() {
 		runsMu.Lock()
 		delete(runs, w)
+		for b, br := range batchRuns {
+			if br == r {
+				delete(batchRuns, b)
+			}
+		}
 		runsMu.Unlock()
 	}()
 
@@ -97,8 +102,8 @@ func Run(sc *Script) []trace.Event {
 			desc := make([]interface{}, len(st.Msgs))
 			r.mu.Lock()
 			for i, m := range st.Msgs {
-				msgs[i] = kafka.Message{Topic: m.Topic, Value: makeValue(st.C, i+1, m.Sz)}
-				desc[i] = map[string]interface{}{"sz": ValueSize(st.C, i+1, m.Sz), "topic": m.Topic}
+				msgs[i] = makeMessage(st.C, i+1, m)
+				desc[i] = map[string]interface{}{"sz": MessageSize(st.C, i+1, m), "topic": m.Topic}
 				r.planned[[2]int{st.C, i + 1}] = m.P
 			}
 			r.mu.Unlock()
